@@ -171,6 +171,13 @@ fn replace_html_char<'a>(ch: char) -> Cow<'a, str> {
         '\'' => Cow::from("&#39;"),
         '"' => Cow::from("&quot;"),
         '\0' => Cow::from(""),
+        // characters that can not be represented in an xml document
+        '\u{1}'..='\u{8}'
+        | '\u{b}'
+        | '\u{c}'
+        | '\u{e}'..='\u{1f}'
+        | '\u{fffe}'
+        | '\u{ffff}' => Cow::from(""),
         _ => Cow::from(ch.to_string()),
     }
 }
